@@ -395,7 +395,7 @@ func runC10(c *Ctx) {
 	defer func() { os.Stdout = realStdout; f.Close(); os.Remove(f.Name()); os.RemoveAll(dir) }()
 
 	flaky, reports, leaks := 0, 0, 0
-	for k := 0; k < c.Budget(150, 3000); k++ {
+	for k := 0; k < c.Budget(500, 3000); k++ {
 		p := c10Profile(c.R)
 		types := c10Types(p)
 		ref := Render(DumpProfile(func() *profile.Profile { return parseBack(p) }()))
@@ -494,9 +494,12 @@ type c10Req struct {
 	q    url.Values
 }
 
-var c10LastBody string
-
 func c10Do(h map[string]http.Handler, rq c10Req) (int, string) {
+	code, hash, _ := c10Do3(h, rq)
+	return code, hash
+}
+
+func c10Do3(h map[string]http.Handler, rq c10Req) (int, string, string) {
 	req := httptest.NewRequest("GET", rq.path+"?"+rq.q.Encode(), nil)
 	w := httptest.NewRecorder()
 	func() {
@@ -508,8 +511,7 @@ func c10Do(h map[string]http.Handler, rq c10Req) (int, string) {
 		}()
 		h[rq.path].ServeHTTP(w, req)
 	}()
-	c10LastBody = w.Body.String()
-	return w.Code, shortHash(fmt.Sprint(w.Code) + w.Body.String())
+	return w.Code, shortHash(fmt.Sprint(w.Code) + w.Body.String()), w.Body.String()
 }
 
 type nullUI struct{}
@@ -524,7 +526,7 @@ func (nullUI) SetAutoComplete(func(string) string) {}
 func runC10Web(c *Ctx, fields []driver.VerifField) {
 	paths := []string{"/top", "/top", "/peek", "/flamegraph", "/flamegraph", "/", "/download", "/source"}
 	flaky := 0
-	for k := 0; k < c.Budget(60, 1500); k++ {
+	for k := 0; k < c.Budget(150, 1500); k++ {
 		p := c10Profile(c.R)
 		p0dump := Render(DumpProfile(p))
 		cfg0 := driver.VerifDefaultConfig()
@@ -559,12 +561,15 @@ func runC10Web(c *Ctx, fields []driver.VerifField) {
 			reqs = append(reqs, c10Req{path, q})
 		}
 		concurrent := c.R.Bool()
+		lastFresh := ""
 		fresh := func(rq c10Req) (int, string) {
 			h, err := driver.VerifWeb(p, o)
 			if err != nil {
 				panic(err)
 			}
-			return c10Do(h, rq)
+			code, hash, body := c10Do3(h, rq)
+			lastFresh = body
+			return code, hash
 		}
 		h, err := driver.VerifWeb(p, o)
 		if err != nil {
@@ -585,8 +590,7 @@ func runC10Web(c *Ctx, fields []driver.VerifField) {
 			wg.Wait()
 		} else {
 			for i := range reqs {
-				codes[i], hashes[i] = c10Do(h, reqs[i])
-				bodies[i] = c10LastBody
+				codes[i], hashes[i], bodies[i] = c10Do3(h, reqs[i])
 			}
 		}
 		cfgSame := Render(cfgTerm(driver.VerifCurrentConfig())) == Render(cfgTerm(cfg0))
@@ -597,11 +601,15 @@ func runC10Web(c *Ctx, fields []driver.VerifField) {
 			collect(strs, rq.q)
 			fc, fh := fresh(rq)
 			same := fc == codes[i] && fh == hashes[i]
+			firstFresh := lastFresh
 			for attempt := 0; attempt < 6 && !same; attempt++ { // an unstable output (C08) matches eventually, a leak never
 				fc2, fh2 := fresh(rq)
 				if fc2 == codes[i] && fh2 == hashes[i] {
 					flaky++
 					same = true
+					if _, have := c.Extra["web_unstable_sample"]; !have && !concurrent {
+						c.Extra["web_unstable_sample"] = rq.path + " " + firstDiff(bodies[i], firstFresh)
+					}
 				}
 			}
 			if !same {
@@ -610,7 +618,7 @@ func runC10Web(c *Ctx, fields []driver.VerifField) {
 					flaky++
 					same = true
 				} else if _, have := c.Extra["web_mismatch_sample"]; !have && !concurrent {
-					c.Extra["web_mismatch_sample"] = firstDiff(bodies[i], c10LastBody)
+					c.Extra["web_mismatch_sample"] = firstDiff(bodies[i], lastFresh)
 				}
 			}
 			rT = append(rT, L(S(rq.path), valuesTerm(rq.q)))
